@@ -209,4 +209,15 @@ def demoPush : List (Nat × Bool) := (List.replicate 40 [(0, false), (1, false)]
 
 example : ((run (init 2 64 [[[1, 2], [3, 4]], [[5, 6], [7, 8]]]) demoPush).buckets.length ≥ 3) := by decide
 
+/-- … a quiescent state in which three blocks have been allocated and all three are in the list
+(`quiescent_no_block_lost` is not vacuous), … -/
+example : quiescent (run (init 2 64 [[[1, 2], [3, 4]], [[5, 6], [7, 8]]]) demoPush) = true ∧
+    (run (init 2 64 [[[1, 2], [3, 4]], [[5, 6], [7, 8]]]) demoPush).nextId = 3 ∧
+    ((run (init 2 64 [[[1, 2], [3, 4]], [[5, 6], [7, 8]]]) demoPush).buckets.map (·.id)) = [2, 1, 0] := by decide
+
+/-- … and a state that satisfies the hypotheses of `solo_call_follows_source` in which the call has to
+grow the arena (the block of 2 bytes is full): the tree says "double", the machine does it. -/
+example : (Grow.eval (envOf (run (init 2 64 [[[1, 2], [3, 4]]]) (List.replicate 5 (0, false))) [3, 4]) Extracted.lockfreeGrow)
+    = some (.grow 4 4 (some 4) .pushFront) := by decide
+
 end Lasso.C05
